@@ -127,9 +127,9 @@ pub const KINDS: [&str; 9] = ["tracked", "plain", "string", "large", "zstkey", "
 pub const NKINDS: u8 = 9;
 
 /// Compiled capacities for single-container engines.
-pub const CAPS: [usize; 10] = [0, 1, 2, 3, 4, 6, 9, 17, 33, 70];
+pub const CAPS: [usize; 12] = [0, 1, 2, 3, 4, 6, 9, 17, 33, 70, 32, 64];
 /// indices of the large capacities (past the 32- and 64-entry marks), used by the `*-big` campaigns
-pub const BIG_CAPS: [u8; 2] = [8, 9];
+pub const BIG_CAPS: [u8; 4] = [8, 9, 10, 11];
 /// Compiled capacities for pair engines (left and right operand).
 pub const CAPS2: [usize; 5] = [0, 1, 2, 3, 5];
 
